@@ -29,6 +29,8 @@ VENDORS = {
     "aruba": ("aruba", "Aruba SIM-%d"),
     "b4com": ("b4com", "B4com SIM-%d"),
     "h3c": ("h3c", "H3C SIM-%d"),
+    # (the registry never resolves a model to the optixtrans entry -- "Huawei OptiXtrans ..." matches huawei first --
+    #  so its exit-less formatter cannot be reached through a device and is not part of the world)
 }
 
 
@@ -56,7 +58,10 @@ class CliWorld:
             self.allow.discard("rewrite")
             if ch.draw(3, "feat-twins") != 0:
                 self.allow.add("twins")
-        self.rb = W.gen_rulebook(ch, vkey, v.reverse, v.exit, unique_heads=(prop == "C09"), allow=self.allow)
+        # a formatter without block-exit statements (OptiXtrans uses the common one) leaves nesting to the levels
+        from annet.annlib.tabparser import BlockExitFormatter
+        exit_word = v.exit if isinstance(v.make_formatter(), BlockExitFormatter) else None
+        self.rb = W.gen_rulebook(ch, vkey, v.reverse, exit_word, unique_heads=(prop == "C09"), allow=self.allow)
         self.rb_text = self.rb.text()
         self.fmt = v.make_formatter(indent="  ")
         self.fmt0 = v.make_formatter(indent="")
